@@ -35,13 +35,19 @@ Definition numeric_mix (f : tframe) : bool :=
   existsb (fun col => kind_eqb (fst col) KFlt) (tf_cols f).
 Definition coerce_row_val (v : val) : val := match v with VInt z => VFlt z 1 | _ => v end.
 
-Definition M_rows (f : tframe) : list (list val) :=
+(* [coerced]: the rows are exported as float64 arrays.  A Frame built in one step resolves its row dtype from all
+   blocks (numeric_mix); a FrameGO grown block by block (TypeBlocks.append, type_blocks.py:3222-3227) keeps the
+   dtype of the first block while every later block has exactly that dtype and switches to object otherwise --
+   so a grown Frame with columns of different dtypes exports its rows uncoerced. *)
+Definition M_rows_gen (coerced : bool) (f : tframe) : list (list val) :=
   let rows := rows_of VNone (nrows f) (map snd (tf_cols f)) in
-  if numeric_mix f then map (map coerce_row_val) rows else rows.
+  if coerced then map (map coerce_row_val) rows else rows.
+Definition M_rows (f : tframe) : list (list val) := M_rows_gen (numeric_mix f) f.
 
 (* ---- to_pairs(1): ((index label, ((column label, value), ...)), ...) ---- *)
-Definition M_to_pairs1 (f : tframe) : list (label * list (label * val)) :=
-  combine (tf_index f) (map (combine (tf_columns f)) (M_rows f)).
+Definition M_to_pairs1_gen (coerced : bool) (f : tframe) : list (label * list (label * val)) :=
+  combine (tf_index f) (map (combine (tf_columns f)) (M_rows_gen coerced f)).
+Definition M_to_pairs1 (f : tframe) : list (label * list (label * val)) := M_to_pairs1_gen (numeric_mix f) f.
 
 (* rows -> one array per column (from_records and friends) *)
 Definition columns_of_rows (nc : nat) (rows : list (list val)) : list (kind * list val) :=
